@@ -7,6 +7,7 @@ export LOGS=$(mktemp -d /var/tmp/xpv-regress.XXXXXX)
 one() {
   d="seeded/$1"; id="$1"
   [ -f "$d/patch.diff" ] || exit 0
+  if grep -q '"superseded_by_fix"' "$d/meta.json"; then echo "$id superseded by a later fix in /repo (see its meta.json): skipped"; exit 0; fi
   prop=$(python3 -c "import json;print(json.load(open('$d/meta.json'))['breaks_property'])")
   others=$(python3 -c "import json;print(' '.join(x for x in json.load(open('$d/meta.json')).get('caught_by_quick_checks',[]) if x!='$prop'))")
   tools/trymut.sh "rg-$id" "$d/patch.diff" - $prop > "$LOGS/$id.log" 2>&1
@@ -15,7 +16,11 @@ one() {
     tools/trymut.sh "rg-$id" "$d/patch.diff" - $others > "$LOGS/$id.2.log" 2>&1
     res="(own check silent) $(grep "^RESULT" "$LOGS/$id.2.log" | sed 's/.*caught by://')"
   fi
-  case "$res" in *C[0-9][0-9]*) echo "$id breaks=$prop caught_by=$res";; *) echo "$id breaks=$prop NOT-CAUGHT $res $(tail -2 "$LOGS/$id.log" | tr '\n' ' ' | cut -c1-200)";; esac
+  if grep -q "^RESULT.*\(does not apply\|does not compile\|unusable\|does not demonstrate\)" "$LOGS/$id.log"; then
+    echo "$id breaks=$prop UNUSABLE-ON-THIS-HEAD $(grep "^RESULT" "$LOGS/$id.log" | cut -c1-160)"
+    exit 0
+  fi
+  case "$res" in *\ C[0-9][0-9]*) echo "$id breaks=$prop caught_by=$res";; *) echo "$id breaks=$prop NOT-CAUGHT $res $(tail -2 "$LOGS/$id.log" | tr '\n' ' ' | cut -c1-200)";; esac
 }
 export -f one
 ls -d seeded/${1:-*}/ | xargs -n1 basename | xargs -P "${JOBS:-4}" -I{} bash -c 'one {}'
